@@ -291,7 +291,7 @@ func linqToSlice(fr *Frame, site ssa.Instruction, fn *ssa.Function, args []*Term
 	n := app("s.len", src)
 	before := st.clone() // source elements and predicates are evaluated in the state before the result is written
 	srcAt := func(j string) *Term {
-		return vc.load(before, q.srcElem, leaf(fmt.Sprintf("(eaddr (s.arr %s) (+ (s.off %s) %s))", src, src, j)))
+		return vc.load(before, q.srcElem, leaf(fmt.Sprintf("(selem %s %s)", src, j)))
 	}
 	pred := func(j string) *Term {
 		var cs []*Term
@@ -326,9 +326,9 @@ func linqToSlice(fr *Frame, site ssa.Instruction, fn *ssa.Function, args []*Term
 	// The result array is fresh: its cells were never read before, so their (so far unconstrained)
 	// content is fixed by assumption instead of havoc + frame (same device as zero-initialisation).
 	outAt := func(m string) *Term {
-		return vc.load(st, outEl, leaf(fmt.Sprintf("(eaddr %s %s)", fa, m)))
+		return vc.load(st, outEl, leaf(fmt.Sprintf("(selem %s %s)", res, m)))
 	}
-	srcAddr := func(j string) string { return fmt.Sprintf("(eaddr (s.arr %s) (+ (s.off %s) %s))", src, src, j) }
+	srcAddr := func(j string) string { return fmt.Sprintf("(selem %s %s)", src, j) }
 	if len(q.where) > 0 {
 		pj := pred("j")
 		vc.assume(st.guard, leaf(fmt.Sprintf("(= (%s 0) 0)", cnt)))
@@ -345,11 +345,11 @@ func linqToSlice(fr *Frame, site ssa.Instruction, fn *ssa.Function, args []*Term
 			return fmt.Sprintf("(=> (and (<= 0 %s) (< %s %s)) (and (<= 0 (%s %s)) (< (%s %s) %s) %s (= (%s (%s %s)) %s) %s))",
 				m, m, outLen, idx, m, idx, m, n, pim, cnt, idx, m, m, mkEq(outAt(m), proj(fmt.Sprintf("(%s %s)", idx, m))))
 		}
-		vc.assume(st.guard, leaf(fmt.Sprintf("(forall ((m Int)) (! %s :qid linq-onto :pattern ((%s m)) :pattern ((eaddr %s m))))", onto("m"), idx, fa)))
+		vc.assume(st.guard, leaf(fmt.Sprintf("(forall ((m Int)) (! %s :qid linq-onto :pattern ((%s m)) :pattern ((selem %s m))))", onto("m"), idx, res)))
 		// ground instance for the first output position (used by emptiness tests)
 		vc.assume(st.guard, leaf(onto("0")))
 	} else {
-		vc.assume(st.guard, leaf(fmt.Sprintf("(forall ((j Int)) (! (=> (and (<= 0 j) (< j %s)) %s) :pattern (%s) :pattern ((eaddr %s j))))", n, mkEq(outAt("j"), proj("j")), srcAddr("j"), fa)))
+		vc.assume(st.guard, leaf(fmt.Sprintf("(forall ((j Int)) (! (=> (and (<= 0 j) (< j %s)) %s) :pattern (%s) :pattern ((selem %s j))))", n, mkEq(outAt("j"), proj("j")), srcAddr("j"), res)))
 	}
 	vc.storeVal(st, outT, p, res)
 	// expose the witness functions to contracts through the last-query registry
